@@ -1,6 +1,7 @@
 package graphql
 
 import (
+	"github.com/graphql-go/graphql/verifhook"
 	"fmt"
 	"math"
 	"reflect"
@@ -1725,6 +1726,7 @@ func VariablesInAllowedPositionRule(context *ValidationContext) *ValidationRuleI
 // Note that this only validates literal values, variables are assumed to
 // provide values of the correct type.
 func isValidLiteralValue(ttype Input, valueAST ast.Value) (bool, []string) {
+	verifhook.Count(verifhook.IsValidLiteralValue)
 	if _, ok := ttype.(*NonNull); !ok {
 		if valueAST == nil {
 			return true, nil
